@@ -684,6 +684,15 @@ fn rvalue_j<'tcx>(
                 mir::AggregateKind::Array(_) => v.push(("array", J::Bool(true))),
                 mir::AggregateKind::Closure(cdid, _) => {
                     v.push(("closure", J::s(names::pretty(tcx, *cdid))));
+                    // the captured variables' names, in the order of the operands
+                    if let Some(l) = cdid.as_local() {
+                        let caps: Vec<J> = tcx
+                            .closure_captures(l)
+                            .iter()
+                            .map(|c| J::s(c.var_ident.name.to_string()))
+                            .collect();
+                        v.push(("captures", J::Arr(caps)));
+                    }
                 }
                 other => v.push(("otherkind", J::s(format!("{:?}", other)))),
             }
